@@ -109,6 +109,9 @@ where
             Rectangle::new(Point::new(tl.0, tl.1 + 3), Size::new(aw + 2, ah)),
             Rectangle::new(Point::new(tl.0 + 2, tl.1), Size::new(aw, ah + 1)),
             Rectangle::new(Point::new(tl.0 + aw as i32 - 1, tl.1 + ah as i32 - 1), Size::new(1, 1)),
+            // only complete rows removed: the bottom row; the top and the bottom row
+            Rectangle::new(Point::new(tl.0 - 1, tl.1 - 1), Size::new(aw + 2, ah)),
+            Rectangle::new(Point::new(tl.0, tl.1 + 1), Size::new(aw, ah.saturating_sub(2))),
         ];
         for clip in clips {
             let want: Map<u32> = exp.iter().filter(|(k, _)| clip.contains(Point::new(k.0, k.1))).map(|(k, v)| (*k, *v)).collect();
@@ -116,6 +119,14 @@ where
             image.draw(&mut pn.clipped(&clip)).unwrap();
             let mut pd = RecD::<I::Color>::new();
             image.draw(&mut pd.clipped(&clip)).unwrap();
+            // a parent that drains every colour stream it is handed: each must hold exactly its area's colours
+            let mut pdr = RecN::<I::Color>::new().draining();
+            image.draw(&mut pdr.clipped(&clip)).unwrap();
+            for (area_n, got) in &pdr.drained {
+                if area_n != got {
+                    obs.fail("colour-stream-has-exactly-width-x-height-colours", format!("behind clipped({:?}): fill_contiguous area of {area_n} pixels received a stream of {got} colours", rt(&clip)));
+                }
+            }
             obs.class_if(!want.is_empty() && want.len() < exp.len(), "image-partly-inside-a-clipped-target");
             for (name, m) in [("native parent", &pn.map), ("draw_iter-only parent", &pd.map)] {
                 let got: Map<u32> = m.iter().map(|(k, c)| (*k, raw_of(*c))).collect();
